@@ -176,7 +176,10 @@ def _run(case):
             if not np.any(s):
                 s[0] = spread
             cand = (mdl.xopt() if op["from_xopt"] else np.zeros(n)) + s
-            cand = np.minimum(np.maximum(mdl.xbase + cand, xl), xu) - mdl.xbase        # keep the fed point inside the box
+            # keep the fed point inside the box - in the model's own terms (its bounds relative to the current base point, which
+            # carry the rounding of every earlier shift): a point clipped against the absolute bounds can land an ulp outside
+            # them, is then clipped again by the model onto an existing point, and the set is singular (seed 2, a false alarm)
+            cand = np.minimum(np.maximum(cand, mdl.sl), mdl.su)
             k = cur if kind == "grow" else op["k"] % cur
             Y = np.array([mdl.xpt(j) for j in range(cur)])
             if kind == "grow":
